@@ -405,8 +405,20 @@ def case_solution(spec):
                 x, y = getattr(da, f), getattr(db, f)
                 if not np.array_equal(x, y):
                     cx.viol("step_array_differs", "step_data_differs", {"what": "memory_only_copy", "field": f})
-            if not np.array_equal(sol.dynamics.dt, l1.dynamics.dt):
-                cx.viol("dynamics_differs", "dynamics_differs", {"what": "memory_only_copy", "field": "dt"})
+            for f in ("dt", "time", "mu", "theta", "screening_iterations"):
+                x, y = getattr(sol.dynamics, f), getattr(l1.dynamics, f)
+                cx.cnt("memory_only_dynamics_checks")
+                if (x is None) != (y is None) or (x is not None and (np.asarray(x).shape != np.asarray(y).shape or not np.array_equal(x, y))):
+                    cx.viol("dynamics_differs", "dynamics_differs", {"what": "memory_only_copy", "field": f})
+            ta, tb = sol.times, l1.times
+            if (ta is None) != (tb is None) or (ta is not None and not np.array_equal(ta, tb)):
+                cx.viol("times_differ", "dynamics_differs", {"what": "memory_only_copy"})
+            if sol.field_units != l1.field_units or sol.current_units != l1.current_units:
+                cx.viol("units_differ", "option_field_differs", {"what": "memory_only_copy"})
+            # a second generation: the loaded copy saved and loaded again
+            p2 = os.path.join(keep, "copy2.h5")
+            l1.to_hdf5(p2)
+            cmp_solution(cx, l1, tdgl.Solution.from_hdf5(p2), "memory_only_copy/second_generation")
             cmp_device(cx, sol.device, l1.device, "memory_only_copy/device")
             cx.cnt("parameter_value_checks")
     finally:
